@@ -43,6 +43,7 @@ void harness(void) {
   if (early) vs_env_fire();             /* client already queued / arrives while accept waits */
   p_socket_set_blocking(S, early ? ND_BOOL() : TRUE);
   vs_begin_call(FAULTS, VS_M_EINTR | VS_M_EAGAIN);
+  vs.nb_call = !p_socket_get_blocking(S);
   X = p_socket_accept(S, &err);
   if (X == NULL) VASSERT(!p_socket_get_blocking(S) && vs.nfaults > 0, "accept fails only by a spurious would-block on a non-blocking listener");
   else {
